@@ -205,8 +205,10 @@ where
                     self.deferred_index_dump_info = None;
                 } else {
                     // The dump procedure is already running, but this does not guarantee that the dump for the desired blob will be made in it. 
-                    // Therefore, we defer the dump procedure once more
-                    self.deferred_index_dump_info = Some(Box::new(DeferredEventData::new()));
+                    // Therefore, we defer the dump procedure once more (and arm the deadline for it)
+                    let deferred = Box::new(DeferredEventData::new());
+                    self.update_deadline(deferred.next_deadline(min, max));
+                    self.deferred_index_dump_info = Some(deferred);
                 }
             } else {
                 let next_deadline = deferred.next_deadline(min, max);
